@@ -101,7 +101,11 @@ class HierarchicalProblem(up.model.problem.Problem):
                 costs: Dict["up.model.Action", "up.model.Expression"] = {
                     new_p.action(a.name): c for a, c in m.costs.items()
                 }
-                new_p._metrics.append(up.model.metrics.MinimizeActionCosts(costs))
+                new_p._metrics.append(
+                    up.model.metrics.MinimizeActionCosts(
+                        costs, default=m.default, environment=new_p._env
+                    )
+                )
             else:
                 new_p._metrics.append(m)
         new_p._initial_defaults = self._initial_defaults.copy()
